@@ -440,18 +440,23 @@ OPS["generate_batch"] = op_generate_batch
 
 
 class _Conc:
-    """Recorder + optional deterministic scheduler shared by the wrappers."""
+    """Recorder + optional deterministic scheduler shared by the wrappers.
+
+    Scheduled mode: a thread that reaches a touch point parks until the scheduler grants it the next step.  A granted
+    thread that does not reach its next point within a short time is blocked natively (e.g. on the compile lock held
+    by a parked thread); the scheduler then simply goes on with the next entry of the schedule.
+    """
 
     def __init__(self):
         import threading
 
         self.tl = threading.local()
         self.rec_lock = threading.Lock()
+        self.cond = threading.Condition()
         self.events = []
         self.mode = "free"
-        self.sem = {}
-        self.arrived = None
-        self.done = set()
+        self.state = {}     # tid -> "running" | "parked" | "done"
+        self.granted = {}
 
     def tid(self):
         return getattr(self.tl, "tid", None)
@@ -463,8 +468,18 @@ class _Conc:
         with self.rec_lock:
             self.events.append({"ev": label, "t": t, **kw})
         if self.mode == "sched":
-            self.arrived.release()
-            self.sem[t].acquire()
+            with self.cond:
+                self.state[t] = "parked"
+                self.cond.notify_all()
+                while not self.granted.get(t):
+                    self.cond.wait()
+                self.granted[t] = False
+                self.state[t] = "running"
+
+    def finish(self, t):
+        with self.cond:
+            self.state[t] = "done"
+            self.cond.notify_all()
 
 
 _conc = None
@@ -514,24 +529,20 @@ def _install_conc():
 
     tmod.TensorMethod.__init__ = init
 
-    class Lock:
-        def __init__(self, inner):
-            self.inner = inner
+    # the critical section itself (FFI.compile is not thread safe), observed independently of how it is protected:
+    # "lock" = a thread is inside FFI.compile, "unlock" = it has left
+    import cffi
 
-        def __enter__(self):
-            if C.mode == "sched" and C.tid() is not None:
-                while not self.inner.acquire(blocking=False):
-                    C.point("lock_spin")
-            else:
-                self.inner.acquire()
-            C.point("lock")
-            return self
+    orig_compile = cffi.FFI.compile
 
-        def __exit__(self, *a):
+    def compile_(self, *a, **kw):
+        C.point("lock")
+        try:
+            return orig_compile(self, *a, **kw)
+        finally:
             C.point("unlock")
-            self.inner.release()
 
-    ccffi.lock = Lock(ccffi.lock)
+    cffi.FFI.compile = compile_
 
     orig_alloc = tmod.allocate_taco_structure
 
@@ -601,50 +612,64 @@ def op_concurrency(task):
             except Exception as e:  # noqa: BLE001
                 errors[tid] = f"{type(e).__name__}: {e}"[:200]
             finally:
-                if C.mode == "sched":
-                    with C.rec_lock:
-                        C.done.add(tid)
-                    C.arrived.release()
+                C.finish(tid)
 
-        ths = [threading.Thread(target=body, args=(tid, name)) for tid, name in threads]
+        import time as _time
+
+        hung = False
         if rnd.get("schedule") is None:
             C.mode = "free"
-            barrier = threading.Barrier(len(ths))
+            barrier = threading.Barrier(len(threads))
             ths = [threading.Thread(target=lambda tid=tid, name=name: (barrier.wait(), body(tid, name))) for tid, name in threads]
             for t in ths:
                 t.start()
             for t in ths:
-                t.join(timeout=120)
+                t.join(timeout=180)
             hung = any(t.is_alive() for t in ths)
         else:
             C.mode = "sched"
-            C.sem = {tid: threading.Semaphore(0) for tid, _ in threads}
-            C.arrived = threading.Semaphore(0)
+            C.state = {tid: "running" for tid, _ in threads}
+            C.granted = {tid: False for tid, _ in threads}
+            ths = [threading.Thread(target=body, args=(tid, name)) for tid, name in threads]
             for t in ths:
                 t.start()
-            hung = False
-            for _ in threads:
-                if not C.arrived.acquire(timeout=60):
-                    hung = True
             order = list(rnd["schedule"])
-            live = [tid for tid, _ in threads]
-            steps = 0
-            while not hung and len(C.done) < len(threads):
-                tid = order.pop(0) if order else next(t for t in live if t not in C.done)
-                if tid in C.done:
-                    continue
-                C.sem[tid].release()
-                if not C.arrived.acquire(timeout=60):
-                    hung = True
-                steps += 1
-                if steps > 5000:
-                    hung = True
+            tids = [tid for tid, _ in threads]
+            last_progress = _time.time()
+            rr = 0
+            with C.cond:
+                while any(C.state[t] != "done" for t in tids):
+                    parked = [t for t in tids if C.state[t] == "parked"]
+                    if not parked:
+                        C.cond.wait(timeout=0.5)       # somebody is running (or blocked natively): wait for a change
+                        if _time.time() - last_progress > 90:
+                            hung = True
+                            break
+                        continue
+                    nxt = None
+                    while order:
+                        cand = order.pop(0)
+                        if C.state.get(cand) == "parked":
+                            nxt = cand
+                            break
+                    if nxt is None:
+                        nxt = parked[rr % len(parked)]
+                        rr += 1
+                    C.granted[nxt] = True
+                    C.state[nxt] = "running"
+                    C.cond.notify_all()
+                    last_progress = _time.time()
+                    # let it run to its next touch point; if it blocks natively, go on with the others
+                    C.cond.wait_for(lambda n=nxt: C.state[n] in ("parked", "done"), timeout=0.4)
             C.mode = "free"
-            for tid, _ in threads:      # release anything still parked
-                C.sem[tid].release()
+            with C.cond:
+                for t in tids:
+                    C.granted[t] = True
+                C.cond.notify_all()
             for t in ths:
-                t.join(timeout=10)
-        rounds_out.append({"rid": rnd["rid"], "events": [e for e in C.events if e["ev"] not in ("start", "lock_spin")],
+                t.join(timeout=20)
+            hung = hung or any(t.is_alive() for t in ths)
+        rounds_out.append({"rid": rnd["rid"], "events": [e for e in C.events if e["ev"] != "start"],
                            "same": {str(tid): results.get(tid) == alone[name] for tid, name in threads},
                            "errors": {str(k): v for k, v in errors.items()}, "hung": hung})
         keep.clear()
